@@ -253,6 +253,13 @@ func (p *PacketOut) MarshalBinary() (data []byte, err error) {
 	copy(data[n:], b)
 	n += len(b)
 
+	// declare the length of the actions actually written (an action may have
+	// grown since AddAction, or Actions may have been assigned directly)
+	p.ActionsLen = 0
+	for _, a := range p.Actions {
+		p.ActionsLen += a.Len()
+	}
+
 	binary.BigEndian.PutUint32(data[n:], p.BufferId)
 	n += 4
 	binary.BigEndian.PutUint32(data[n:], p.InPort)
